@@ -13,11 +13,16 @@ class VClock:
     def __init__(self):
         self.ticks = 0
         self.sleeps = []
+        self.active = False      # virtual only while a case runs; real time otherwise
 
     def monotonic(self):
+        if not self.active:
+            return _real_monotonic()
         return self.ticks * TICK
 
     def sleep(self, secs):
+        if not self.active:
+            return _real_sleep(secs)
         t = to_ticks(secs)
         self.sleeps.append(t)
         self.ticks += t
@@ -25,6 +30,13 @@ class VClock:
     def reset(self, ticks=0):
         self.ticks = ticks
         self.sleeps = []
+
+    def __enter__(self):
+        self.active = True
+        return self
+
+    def __exit__(self, *a):
+        self.active = False
 
 
 CLOCK = VClock()
@@ -41,7 +53,6 @@ def to_ticks(secs):
 def install():
     _time.monotonic = CLOCK.monotonic
     _time.sleep = CLOCK.sleep
-    _time.time = lambda: 1.0e9 + CLOCK.monotonic()
 
 
 def real_monotonic():
